@@ -13,6 +13,7 @@
 (***************************************************************************)
 EXTENDS Naturals, Sequences, FiniteSets, TLC
 CONSTANTS Conn, Oid, MaxCommits, MaxCloses,
+          UndoAgents,          \* members of Conn that stand for DB.undo transactions (never opened, no cache)
           MutIgnoreILtid       \* deviation for self-test: snapshot := polled tid only
 VARIABLES hist,       \* committed and published transactions: sequence of [tid, oids]
           sLtid,      \* storage.lastTransaction()
@@ -46,7 +47,7 @@ InFinish == \E c \in Conn : pc[c] = "delivering"
 
 \* DB.open(): reuse the connection on top of the pool, else create a new one (registering its instance)
 \* (an instance registered while a finish is delivering may or may not still be reached by that delivery)
-OpenNew(c) == /\ pc[c] = "new" /\ pool = {}
+OpenNew(c) == /\ pc[c] = "new" /\ pool = {} /\ c \notin UndoAgents
               /\ pc' = [pc EXCEPT ![c] = "idle"]
               /\ pending' = IF InFinish THEN [pending EXCEPT !.late = @ \cup {c}] ELSE pending
               /\ UNCHANGED <<hist, sLtid, start, inval, iLtid, cache, polled, dirty, commitLock, ctid, pool, closes>>
@@ -93,6 +94,15 @@ BeginVote(c) == /\ ~InFinish /\ pc[c] = "txn" /\ dirty[c] # {} /\ commitLock = N
                         /\ dirty' = [dirty EXCEPT ![c] = {}] /\ pc' = [pc EXCEPT ![c] = "idle"]
                         /\ UNCHANGED <<commitLock, ctid>>
                 /\ UNCHANGED <<hist, sLtid, start, inval, iLtid, polled, pending, pool, closes>>
+\* DB.undo / undoMultiple: a transaction of its own (UndoAdapterInstance) that writes the objects of the undone
+\* transactions; its finish invalidates them in EVERY registered instance
+UndoVote(u, oids, ok) ==
+  /\ u \in UndoAgents /\ pc[u] = "new"
+  /\ ok => (~InFinish /\ commitLock = None /\ oids # {} /\ Len(hist) <= MaxCommits)
+  /\ IF ok THEN /\ commitLock' = u /\ ctid' = sLtid + 1 /\ pc' = [pc EXCEPT ![u] = "voted"]
+                 /\ dirty' = [dirty EXCEPT ![u] = oids]
+           ELSE UNCHANGED <<commitLock, ctid, pc, dirty>>
+  /\ UNCHANGED <<hist, sLtid, start, inval, iLtid, cache, polled, pending, pool, closes>>
 \* tpc_finish enters the storage lock; invalidations go to every OTHER registered instance, one lock at a time
 FinishStart(c) == /\ pc[c] = "voted"
                   /\ pending' = [done |-> {}, late |-> {}] /\ pc' = [pc EXCEPT ![c] = "delivering"]
@@ -107,12 +117,14 @@ Publish(c) == /\ pc[c] = "delivering"
               /\ hist' = Append(hist, [tid |-> ctid, oids |-> dirty[c]]) /\ sLtid' = ctid
               /\ iLtid' = [iLtid EXCEPT ![c] = ctid]
               /\ cache' = [cache EXCEPT ![c] = [o \in Oid |-> IF o \in dirty[c] THEN ctid ELSE cache[c][o]]]
-              /\ dirty' = [dirty EXCEPT ![c] = {}] /\ commitLock' = None /\ pc' = [pc EXCEPT ![c] = "idle"]
+              /\ dirty' = [dirty EXCEPT ![c] = {}] /\ commitLock' = None
+              /\ pc' = [pc EXCEPT ![c] = IF c \in UndoAgents THEN "new" ELSE "idle"]
               /\ UNCHANGED <<start, inval, polled, pending, ctid, pool, closes>>
 Next == \/ \E c \in Conn : OpenNew(c) \/ OpenPooled(c) \/ Close(c) \/ PollRead(c) \/ PollApply(c) \/ AbortTxn(c)
                             \/ BeginVote(c) \/ FinishStart(c) \/ Publish(c)
         \/ \E c \in Conn, o \in Oid : Read(c, o) \/ Write(c, o)
         \/ \E c \in Conn, j \in Conn : Deliver(c, j)
+        \/ \E u \in UndoAgents, oids \in SUBSET Oid : UndoVote(u, oids, TRUE)
 Spec == Init /\ [][Next]_vars
 
 (* ------------------------------ properties ------------------------------ *)
@@ -125,6 +137,6 @@ Fresh == \A c \in Conn : pc[c] = "txn" => start[c] >= polled[c]
 \* a snapshot never runs ahead of what is published, except by the commit being delivered right now
 NotFromTheFuture == \A c \in Conn : pc[c] = "txn" => (start[c] <= sLtid \/ (InFinish /\ start[c] = ctid))
 \* no lost update: a transaction reaches the vote only on the latest revisions
-VotedOnCurrent == \A c \in Conn : pc[c] \in {"voted", "delivering"} => \A o \in dirty[c] : cache[c][o] = Cur(o)
+VotedOnCurrent == \A c \in Conn \ UndoAgents : pc[c] \in {"voted", "delivering"} => \A o \in dirty[c] : cache[c][o] = Cur(o)
 LockDiscipline == (commitLock # None) <=> (\E c \in Conn : pc[c] \in {"voted", "delivering"})
 =============================================================================
